@@ -197,11 +197,16 @@ def run(ctx, chk):
         chk.bad(R2, "convert:declared-before-use", "on the abstract declared-before-use module the walk panics: %s" % r[1], WC, key="C18:convert:panic")
     elif r is not None:
         want_ev = liftx.expected()
-        got_ev = h.events
+        def _anon(v):
+            # the name of the private record that pairs an op token with its type is the code's own business
+            if isinstance(v, tuple) and len(v) == 3 and v[0] == "struct" and isinstance(v[2], dict) and set(v[2]) == {"op", "ty"}:
+                return ("struct", "OpInfo", v[2])
+            return v
+        got_ev = [tuple(_anon(x) for x in ev_) for ev_ in h.events]
         names = ["type with result id -> types.append_id", "constant with result id -> constants.append_id",
                  "type referring to an earlier type and constant -> types.append_id after both", "function type -> types.append_id", "function definition lifted",
                  "result-producing non-phi instruction -> ops.append", "op info (token, type of the result type)", "block appended with phi argument types and the last instruction as terminator",
-                 "result-producing instruction of the second block -> ops.append", "its op info", "second block appended without arguments (it has no phi)",
+                 "result-producing instruction of the second block -> ops.append", "its op info", "OpUndef in the second block -> ops.append", "its op info", "second block appended without arguments (it has no phi)",
                  "second function definition lifted", "its block appended to a new block storage"]
         for k, (nm, w) in enumerate(zip(names, want_ev)):
             g = got_ev[k] if k < len(got_ev) else None
